@@ -105,8 +105,15 @@ class Apply:
         self.panic_rows = [r for r in rows if r.exit == "panic"]
         self.backedge_rows = [r for r in rows if r.exit == "backedge"]
         self.table = T.Table(self.ret_rows, canon_recv)
+        self._fin = {}
 
     def final(self, row, field):
+        k = (id(row), field)
+        if k not in self._fin:
+            self._fin[k] = self._final(row, field)
+        return self._fin[k]
+
+    def _final(self, row, field):
         t = self.eng.read_rp(_St(row.store), RECV, (F(NS, field),))
         return T.rewrite(t, canon_recv)
 
